@@ -19,6 +19,18 @@ Rust source mirrored here:
   is such a `NodeMap`), :313-335 `GcPtr<T>` is `Shared` with `unique() = false` and serialises
   through `shared::serialize`.
 
+* vm/src/serialization.rs:528-553 `ClosureData::serialize_state` (the only cyclic node kind: a
+  closure's upvars may reach the closure again, e.g. recursive groups and recursive records): a
+  sequence `[Reference(id)]` if the closure's address is in `node_to_id`, otherwise
+  `[Marked(id = map.len()), function, upvars.len(), upvar…]` with the address inserted *before*
+  anything else is written.
+* vm/src/serialization.rs:555-612 `Visitor for Seed<ClosureData>`: `Marked(id)` reads the
+  function (and the count), *allocates* the closure with dummy upvars, inserts it into `gc_map`
+  under `id`, and only then reads and *fills in* the upvars (two-phase "allocate then fill"), so a
+  `Reference(id)` met while the upvars are read resolves to the closure under construction.
+  `Reference(id)` looks `id` up in the `GcPtr<ClosureData>` table. Records (`deserialize_data`,
+  :235-293) and arrays have NO such scheme: they go through `SharedSeed` (insert after contents).
+
 Abstraction: a heap graph is a term `T` whose shared nodes carry their *address*; a node's
 `sort` stands for its Rust type (the `NodeMap` key), `uniq` for `Shared::unique()`. The framing of
 the byte format (serde_json brackets, bincode lengths, …) is abstracted to tokens that carry the
@@ -30,6 +42,12 @@ namespace GluonModel.Share
 inductive T where
   | atom (a : Nat)
   | node (addr : Nat) (uniq : Bool) (sort : Nat) (kids : List T)
+  /-- a fillable object (closure): `pre` is read before the object is allocated and entered into
+      the table (the function), `post` after (the upvars) -/
+  | clo (addr : Nat) (sort : Nat) (pre post : List T)
+  /-- a pointer to an object that is described elsewhere in the term and not unfolded here: the
+      back edge of a cycle -/
+  | ptr (addr : Nat) (sort : Nat)
   deriving Repr, Inhabited
 
 /-- What the serialiser writes (`Variant<T>`), before framing. -/
@@ -38,6 +56,8 @@ inductive D where
   | marked (sort id : Nat) (kids : List D)
   | plain (sort : Nat) (kids : List D)
   | ref (sort id : Nat)
+  /-- `[Marked(id), kid…]` of a closure; the first `k` kids precede the allocation -/
+  | cmarked (sort id k : Nat) (kids : List D)
   deriving Repr, Inhabited
 
 /-- Association-list lookup, newest binding first (a `HashMap` whose `insert` overwrites). -/
@@ -63,6 +83,20 @@ def serD : IdMap → T → D × IdMap
         let id := m.length
         let r := serDs ((addr, id) :: m) kids
         (.marked sort id r.1, r.2)
+  | m, .clo addr sort pre post =>
+    match lookup addr m with
+    | some id => (.ref sort id, m)
+    | none =>
+      let id := m.length
+      let r₁ := serDs ((addr, id) :: m) pre
+      let r₂ := serDs r₁.2 post
+      (.cmarked sort id pre.length (r₁.1 ++ r₂.1), r₂.2)
+  | m, .ptr addr sort =>
+    -- a back edge: its target is an ancestor, hence in the table (`none` only for terms that do
+    -- not describe a graph)
+    match lookup addr m with
+    | some id => (.ref sort id, m)
+    | none => (.atom 0, m)
 def serDs : IdMap → List T → List D × IdMap
   | m, [] => ([], m)
   | m, t :: ts =>
@@ -77,6 +111,8 @@ abbrev NodeMap := List ((Nat × Nat) × T)
 inductive Err where
   | missing (id : Nat)
   | eof
+  /-- fewer elements than the closure visitor needs (`invalid_length`) -/
+  | invalid
   deriving Repr, DecidableEq, Inhabited
 
 mutual
@@ -96,12 +132,37 @@ def deD : NodeMap → D → Except Err (T × NodeMap)
     match lookup (s, id) nm with
     | some t => .ok (t, nm)
     | none => .error (.missing id)
+  | nm, .cmarked s id k ks =>
+    -- the placeholder is the pointer to the allocated, not yet filled closure
+    match deDsC nm k ((s, id), .ptr id s) ks with
+    | .ok (ts, nm') =>
+      .ok (.clo id s (ts.take k) (ts.drop k), ((s, id), .clo id s (ts.take k) (ts.drop k)) :: nm')
+    | .error e => .error e
 def deDs : NodeMap → List D → Except Err (List T × NodeMap)
   | nm, [] => .ok ([], nm)
   | nm, d :: ds =>
     match deD nm d with
     | .ok (t, nm₁) =>
       match deDs nm₁ ds with
+      | .ok (ts, nm₂) => .ok (t :: ts, nm₂)
+      | .error e => .error e
+    | .error e => .error e
+/-- Kids of a closure: after the first `k` the table gets the entry `pl` (allocation), then the
+    rest is read. -/
+def deDsC : NodeMap → Nat → ((Nat × Nat) × T) → List D → Except Err (List T × NodeMap)
+  | nm, 0, pl, [] => .ok ([], pl :: nm)
+  | nm, 0, pl, d :: ds =>
+    match deD (pl :: nm) d with
+    | .ok (t, nm₁) =>
+      match deDs nm₁ ds with
+      | .ok (ts, nm₂) => .ok (t :: ts, nm₂)
+      | .error e => .error e
+    | .error e => .error e
+  | _, _ + 1, _, [] => .error .invalid
+  | nm, k + 1, pl, d :: ds =>
+    match deD nm d with
+    | .ok (t, nm₁) =>
+      match deDsC nm₁ k pl ds with
       | .ok (ts, nm₂) => .ok (t :: ts, nm₂)
       | .error e => .error e
     | .error e => .error e
@@ -115,6 +176,7 @@ inductive Tok where
   | marked (sort id n : Nat)
   | plain (sort n : Nat)
   | ref (sort id : Nat)
+  | cmarked (sort id k n : Nat)
   deriving Repr, DecidableEq, Inhabited
 
 mutual
@@ -123,6 +185,7 @@ def flat : D → List Tok
   | .marked s id ks => .marked s id ks.length :: flats ks
   | .plain s ks => .plain s ks.length :: flats ks
   | .ref s id => [.ref s id]
+  | .cmarked s id k ks => .cmarked s id k ks.length :: flats ks
 def flats : List D → List Tok
   | [] => []
   | d :: ds => flat d ++ flats ds
@@ -143,6 +206,10 @@ def parse : Nat → List Tok → Option (D × List Tok)
   | f + 1, .plain s n :: r =>
     match parseN f n r with
     | some (ks, r') => some (.plain s ks, r')
+    | none => none
+  | f + 1, .cmarked s id k n :: r =>
+    match parseN f n r with
+    | some (ks, r') => some (.cmarked s id k ks, r')
     | none => none
 def parseN : Nat → Nat → List Tok → Option (List D × List Tok)
   | _, 0, r => some ([], r)
@@ -179,6 +246,8 @@ def relabel (m : IdMap) : T → T
   | .atom a => .atom a
   | .node addr uniq s ks =>
     if uniq then .node 0 true s (relabels m ks) else .node (rho m addr) false s (relabels m ks)
+  | .clo addr s pre post => .clo (rho m addr) s (relabels m pre) (relabels m post)
+  | .ptr addr s => .ptr (rho m addr) s
 def relabels (m : IdMap) : List T → List T
   | [] => []
   | t :: ts => relabel m t :: relabels m ts
@@ -188,38 +257,68 @@ end
 inductive Tree where
   | atom (a : Nat)
   | node (sort : Nat) (kids : List Tree)
+  /-- a back edge (to an enclosing fillable object of that sort) -/
+  | back (sort : Nat)
   deriving Repr, Inhabited
 
 mutual
 def unfold : T → Tree
   | .atom a => .atom a
   | .node _ _ s ks => .node s (unfolds ks)
+  | .clo _ s pre post => .node s (unfolds pre ++ unfolds post)
+  | .ptr _ s => .back s
 def unfolds : List T → List Tree
   | [] => []
   | t :: ts => unfold t :: unfolds ts
 end
 
 mutual
-/-- Addresses of the shared nodes of a graph. -/
+/-- Addresses of the shared objects that are unfolded in the term. -/
 def addrs : T → List Nat
   | .atom _ => []
   | .node addr uniq _ ks => if uniq then addrsL ks else addr :: addrsL ks
+  | .clo addr _ pre post => addr :: (addrsL pre ++ addrsL post)
+  | .ptr _ _ => []
 def addrsL : List T → List Nat
   | [] => []
   | t :: ts => addrs t ++ addrsL ts
 end
 
 mutual
-/-- `Agrees h t`: every shared node of `t` is the object that the heap `h` holds at its address
-    (so two occurrences of an address are the same object), and no shared object contains itself
-    (cycles only go through closures, whose serialisation is separate: vm/src/serialization.rs:528). -/
-def Agrees (h : Nat → T) : T → Prop
+/-- Targets of the back edges of the term. -/
+def ptrs : T → List Nat
+  | .atom _ => []
+  | .node _ _ _ ks => ptrsL ks
+  | .clo _ _ pre post => ptrsL pre ++ ptrsL post
+  | .ptr addr _ => [addr]
+def ptrsL : List T → List Nat
+  | [] => []
+  | t :: ts => ptrs t ++ ptrsL ts
+end
+
+def T.sort : T → Nat
+  | .atom _ => 0
+  | .node _ _ s _ => s
+  | .clo _ s _ _ => s
+  | .ptr _ s => s
+
+mutual
+/-- `Agrees h F t` — the term describes a heap graph that the scheme can carry:
+    every shared object of `t` is the object that the heap `h` holds at its address (so two
+    occurrences of an address are the same object); no object is unfolded inside itself; and
+    **cycles pass only through fillable objects**: a back edge `ptr a` is allowed only where `a ∈ F`,
+    the set of closures whose `post` part (upvars) we are inside of. -/
+def Agrees (h : Nat → T) (F : Nat → Prop) : T → Prop
   | .atom _ => True
   | .node addr uniq s ks =>
-    (uniq = false → h addr = .node addr uniq s ks ∧ addr ∉ addrsL ks) ∧ AgreesL h ks
-def AgreesL (h : Nat → T) : List T → Prop
+    (uniq = false → h addr = .node addr uniq s ks ∧ addr ∉ addrsL ks) ∧ AgreesL h F ks
+  | .clo addr s pre post =>
+    h addr = .clo addr s pre post ∧ addr ∉ addrsL pre ∧ addr ∉ addrsL post ∧
+      AgreesL h F pre ∧ AgreesL h (fun x => F x ∨ x = addr) post
+  | .ptr addr s => F addr ∧ (h addr).sort = s
+def AgreesL (h : Nat → T) (F : Nat → Prop) : List T → Prop
   | [] => True
-  | t :: ts => Agrees h t ∧ AgreesL h ts
+  | t :: ts => Agrees h F t ∧ AgreesL h F ts
 end
 
 end GluonModel.Share
